@@ -69,6 +69,8 @@ type rcase struct {
 	Ext      []string `json:"ext"`
 	Split    []string `json:"split"`
 	Index    bool     `json:"index"`
+	Exc      []string `json:"exc"`    // the first rule's `except` (relative to its path), empty = none
+	Second   bool     `json:"second"` // a second rule, for /a, written after the first (same ext / split)
 	Req      []string `json:"req"`
 	Result   string   `json:"result"`
 	Fpath    []string `json:"fpath"`
@@ -404,7 +406,7 @@ func concretise(c *fcase) *concreteResp {
 	// a stderr unit of the model stands for a burst of stderr records, one line each: usually one,
 	// now and then more than the 100 empty reads bufio tolerates (a responder logging a long trace)
 	burst := map[string]int{}
-	for _, e := range []string{"e1", "e2"} {
+	for _, e := range []string{"e1", "e2", "e3"} {
 		k := []int{1, 1, 1, 1, 2, 120, 350, 1}[rnd.Intn(8)]
 		burst[e] = k
 		id := rnd.Intn(1 << 30)
@@ -486,7 +488,13 @@ func concretise(c *fcase) *concreteResp {
 			}
 		}
 		first = false
-		cr.outs = append(cr.outs, hx.FcgiOut{Type: typ, Content: r.payload, Pad: pad})
+		o := hx.FcgiOut{Type: typ, Content: r.payload, Pad: pad}
+		// the model's records are what the responder hands to its transport; where the transport
+		// cuts the byte stream is not the responder's business: now and then inside a record header
+		if rnd.Intn(5) == 0 {
+			o.CutAfter = 1 + rnd.Intn(7)
+		}
+		cr.outs = append(cr.outs, o)
 	}
 	return cr
 }
@@ -663,9 +671,15 @@ func startStack(t testing.TB, rpath, ext, split string, index bool, files map[st
 	if index {
 		b.WriteString("\t\tindex index.php\n")
 	}
+	// extra: lines for inside the rule's block; after a NUL, lines for the site after the block
+	// (@UP@ stands for the responder's address)
+	after := ""
+	if i := strings.IndexByte(extra, 0); i >= 0 {
+		extra, after = extra[:i], strings.ReplaceAll(extra[i+1:], "@UP@", upstream)
+	}
 	b.WriteString(extra)
 	b.WriteString("\t\tread_timeout 4s\n\t\tsend_timeout 4s\n")
-	b.WriteString("\t}\n}\n")
+	b.WriteString("\t}\n" + after + "}\n")
 	for try := 0; try < 3; try++ {
 		s.site, err = hx.StartHTTP(b.String(), "")
 		if err == nil || !strings.Contains(err.Error(), "address already in use") {
@@ -1184,7 +1198,33 @@ type routeObs struct {
 }
 
 func cfgKey(c *rcase) string {
-	return fmt.Sprintf("rule=%s/ext=%s/split=%s/index=%v", chars(c.Rpath), chars(c.Ext), chars(c.Split), c.Index)
+	k := fmt.Sprintf("rule=%s/ext=%s/split=%s/index=%v", chars(c.Rpath), chars(c.Ext), chars(c.Split), c.Index)
+	if len(c.Exc) > 0 {
+		k += "/except=" + chars(c.Exc)
+	}
+	if c.Second {
+		k += "/second=/a"
+	}
+	return k
+}
+
+// routeExtra renders the except line and the second rule of a route case (see startStack's extra).
+func routeExtra(c *rcase) string {
+	in, after := "", ""
+	if len(c.Exc) > 0 {
+		in = "\t\texcept " + chars(c.Exc) + "\n"
+	}
+	if c.Second {
+		after = "\tfastcgi /a @UP@ {\n"
+		if e := chars(c.Ext); e != "" {
+			after += "\t\text " + e + "\n"
+		}
+		if sp := chars(c.Split); sp != "" {
+			after += "\t\tsplit " + sp + "\n"
+		}
+		after += "\t\tread_timeout 4s\n\t\tsend_timeout 4s\n\t}\n"
+	}
+	return in + "\x00" + after
 }
 
 func routeKey(c *rcase, clause string) string {
@@ -1551,7 +1591,7 @@ func TestC13(t *testing.T) {
 				defer wg.Done()
 				defer func() { <-sem }()
 				c0 := cs[0]
-				s, err := startStack(t, chars(c0.Rpath), chars(c0.Ext), chars(c0.Split), c0.Index, routeFiles, "", "")
+				s, err := startStack(t, chars(c0.Rpath), chars(c0.Ext), chars(c0.Split), c0.Index, routeFiles, routeExtra(c0), "")
 				if err != nil {
 					setInfra(err)
 					return
@@ -1776,7 +1816,7 @@ func replayOne(t *testing.T, res *hx.Result, c *anyCase) {
 			res.Add(hx.Mismatch{Key: envKey(c.Env, cl), What: what, Case: c})
 		}
 	case c.R != nil:
-		s, err := startStack(t, chars(c.R.Rpath), chars(c.R.Ext), chars(c.R.Split), c.R.Index, routeFiles, "", "")
+		s, err := startStack(t, chars(c.R.Rpath), chars(c.R.Ext), chars(c.R.Split), c.R.Index, routeFiles, routeExtra(c.R), "")
 		if err != nil {
 			res.Infra = err.Error()
 			return
